@@ -141,7 +141,7 @@ func ruleA22(r *Run, p *Prog, rels []string) {
 			// (a) no output inside the loop; (b) slices grown inside the loop
 			wrote := ""
 			var grown []*ssa.Phi
-			grownMem := map[*ssa.Alloc]bool{}
+			grownMem := map[memKey]bool{}
 			for bb := range body {
 				for _, x := range bb.Instrs {
 					c, ok := x.(*ssa.Call)
@@ -163,8 +163,8 @@ func ruleA22(r *Run, p *Prog, rels []string) {
 						}
 						// a slice variable living in memory (captured by a closure later): load, append, store
 						if ld, ok := c.Call.Args[0].(*ssa.UnOp); ok && ld.Op == token.MUL {
-							if al, ok := ld.X.(*ssa.Alloc); ok {
-								grownMem[al] = true
+							if k, ok := memKeyOf(ld.X); ok {
+								grownMem[k] = true
 							}
 						}
 					}
@@ -180,7 +180,7 @@ func ruleA22(r *Run, p *Prog, rels []string) {
 			}
 			// The unsorted slice is the loop phi as it leaves the loop and/or a local variable in memory
 			// (a variable captured by a closure): values are tracked through stores into locals.
-			trackedAllocs := map[*ssa.Alloc]bool{}
+			trackedAllocs := map[memKey]bool{}
 			for al := range grownMem {
 				trackedAllocs[al] = true
 			}
@@ -194,7 +194,7 @@ func ruleA22(r *Run, p *Prog, rels []string) {
 					return true
 				}
 				if ld, ok := v.(*ssa.UnOp); ok && ld.Op == token.MUL {
-					if al, ok := ld.X.(*ssa.Alloc); ok && trackedAllocs[al] {
+					if k, ok := memKeyOf(ld.X); ok && trackedAllocs[k] {
 						return true
 					}
 				}
@@ -208,7 +208,7 @@ func ruleA22(r *Run, p *Prog, rels []string) {
 					if !ok || body[bb] {
 						return
 					}
-					if al, ok := st.Addr.(*ssa.Alloc); ok && tracked(st.Val) {
+					if al, ok := memKeyOf(st.Addr); ok && tracked(st.Val) {
 						trackingStore[st] = true
 						if !trackedAllocs[al] {
 							trackedAllocs[al] = true
@@ -254,7 +254,7 @@ func ruleA22(r *Run, p *Prog, rels []string) {
 						return false
 					}
 					for _, bnd := range mc.Bindings {
-						if al, ok := bnd.(*ssa.Alloc); ok && trackedAllocs[al] {
+						if al, ok := bnd.(*ssa.Alloc); ok && trackedAllocs[memKey{al, -1}] {
 							return true
 						}
 					}
@@ -294,8 +294,8 @@ func ruleA22(r *Run, p *Prog, rels []string) {
 			for _, ph := range grown {
 				name = ph.Comment
 			}
-			for al := range grownMem {
-				name = al.Comment
+			for k := range grownMem {
+				name = k.al.Comment
 			}
 			r.Ob("A22", originFnName(f, rg)+"/map-range/sorted:"+name, p.Pos(rg.Pos()), !bad, true, tern(!bad, "the slice filled from the map is sorted on every path before it is used"+viewNote(f), "a slice filled in map-iteration order is used without being sorted first on some path: the output order changes from run to run"+viewNote(f)))
 		})
@@ -322,6 +322,25 @@ func ruleA22(r *Run, p *Prog, rels []string) {
 		}
 		r.Ob("A22", FnName(of)+"/comparator-fallback", p.Pos(of.Pos()), okc, true, tern(okc, "fields without an explicit position are ordered by name (`<` on the two names)", "the FieldsOrder comparator has no by-name fallback: the relative order of unlisted fields depends on map iteration order"))
 	}
+}
+
+// memKey names a local memory cell: a local variable (field == -1) or one field of a local
+// struct variable (the state struct of a pipeline of helper methods).
+type memKey struct {
+	al    *ssa.Alloc
+	field int
+}
+
+func memKeyOf(addr ssa.Value) (memKey, bool) {
+	switch x := addr.(type) {
+	case *ssa.Alloc:
+		return memKey{x, -1}, true
+	case *ssa.FieldAddr:
+		if al, ok := x.X.(*ssa.Alloc); ok {
+			return memKey{al, x.Field}, true
+		}
+	}
+	return memKey{}, false
 }
 
 func ruleConsoleLen(r *Run, p *Prog) {
